@@ -17,7 +17,7 @@ PROP = "C05"
 LEVEL = "exploration"
 RULE = (
     "PG programs with provide blocks (nested, shadowing the same key, two keys, around slots, inside fills, in loops, at page level and in "
-    "component templates) and components whose get_context_data calls inject(key) / inject(key, default) for keys pk1/pk2 and echoes a field "
+    "component templates) and components whose get_context_data calls inject(key) / inject(key, default) for keys pk1 / pk2 / class (a Python keyword) and echoes a field "
     "into the output; both context behaviours. Oracle: multiset of (component, key, payload | <default> | <KeyError>) observed by the real "
     "consumers == interpreter's; page text == interpreter's (so each consumer's value appears at the right place; {{ key }} / {{ field }} probes "
     "inside provide bodies render empty). Sequences of 2-4 such renders in one process without resetting the library's registries, optionally "
